@@ -25,6 +25,7 @@ import   "github.com/pbenner/autodiff/statistics/scalarDistribution"
 
 import . "github.com/pbenner/autodiff"
 import . "github.com/pbenner/threadpool"
+import   "github.com/pbenner/autodiff/verifhook"
 
 /* -------------------------------------------------------------------------- */
 
@@ -89,6 +90,8 @@ func (obj *TranslationEstimator) Estimate(gamma ConstVector, p ThreadPool) error
   //////////////////////////////////////////////////////////////////////////////
   if gamma == nil {
     if err := p.AddRangeJob(0, x.Dim(), g, func(i int, p ThreadPool, erf func() error) error {
+      verifhook.Yield("scalarEstimator.translation.job")
+      verifhook.Event("scalarEstimator.translation", i, p.GetThreadId())
       obj.NewObservation(x.ConstAt(i), nil, p)
       return nil
     }); err != nil {
@@ -96,12 +99,15 @@ func (obj *TranslationEstimator) Estimate(gamma ConstVector, p ThreadPool) error
     }
   } else {
     if err := p.AddRangeJob(0, x.Dim(), g, func(i int, p ThreadPool, erf func() error) error {
+      verifhook.Yield("scalarEstimator.translation.job")
+      verifhook.Event("scalarEstimator.translation", i, p.GetThreadId())
       obj.NewObservation(x.ConstAt(i), gamma.ConstAt(i), p)
       return nil
     }); err != nil {
       return err
     }
   }
+  verifhook.Yield("scalarEstimator.translation.queued")
   if err := p.Wait(g); err != nil {
     return err
   }
